@@ -908,3 +908,11 @@ def shrink(case, fails):
                     t = copy.deepcopy(cur); t[key] = v
                     if fails(t): cur = t; break
     return cur
+
+
+def translate(repo, gen_dir):
+    """regenerate Gen/C06_Kernel.v (kernel expressions and statement groups of the climbers, the sorting optimiser, dominates,
+    tiled_choice, the variation operators, the memetic hill-climb steps, and the Solution-construction table of all sixteen
+    optimiser classes) from the current source; fail closed"""
+    from translate import c06_kernel
+    return [c06_kernel.translate(repo, gen_dir)]
